@@ -1739,6 +1739,15 @@ static int inject_drive(int start, int nexec)
 			splice(OL, 0, buf, (int)strlen(buf));
 			three_runs("trailing_chars", OL);
 		}
+		/* ... and trailing bytes that begin with a slash (a path, something that looks like a comment) */
+		memcpy(Q, O, (size_t)OL);
+		QL = OL;
+		{
+			static const char *tr[] = {"/var/log/next", " /* record 2 */ [3,4]", "\n// eof", "/", " //", "/*", "\t/x"};
+			const char *t = tr[vh_below(7)];
+			splice(OL, 0, t, (int)strlen(t));
+			three_runs("trailing_slash", OL);
+		}
 	}
 	return 0;
 }
